@@ -395,6 +395,8 @@ def append_builder(form, timeframe=None):
             keys = order if form != "Dict" else [k.capitalize() for k in order]
             d = st.alloc(DictP({k: vals_[o] for k, o in zip(keys, order)}))
             arg = d if form != "dicts" else st.alloc(ListP([d]))
+        elif form == "tslist":  # one candle in list form with the timestamp FIRST (Candle.from_list takes it first or last)
+            arg = st.alloc(ListP([vals_[o] for o in ["timestamp"] + order[:-1]]))
         else:
             l = st.alloc(ListP([vals_[o] for o in order]))
             arg = l if form == "list" else st.alloc(ListP([l]))
@@ -414,7 +416,7 @@ APPEND = Contract(
                        " and self.candles[0].close == close and self.candles[0].volume == volume and self.candles[0].timestamp == timestamp",
     },
     result_type="None", props=["C19"], use_at_calls=False, pure_args=["candles"])
-for _form in ("candle", "candles", "dict", "Dict", "dicts", "list", "lists"):
+for _form in ("candle", "candles", "dict", "Dict", "dicts", "list", "lists", "tslist"):
     HEX_TASKS[CM + "append#" + _form] = dict(qualname=CM + "append", builder=append_builder(_form), contract=APPEND)
 
 
